@@ -16,8 +16,9 @@ def main():
     confirm_only = "--confirm-only" in sys.argv
     pid = args[0]
     extra = args[1:]
-    out = f"/tmp/seed-{pid}-out"
-    wt = f"/tmp/seed-{pid}"
+    prefix = os.environ.get("SEED_PREFIX", "seed")
+    out = f"/tmp/{prefix}-{pid}-out"
+    wt = f"/tmp/{prefix}-{pid}"
     for meta_path in sorted(glob.glob(f"{out}/meta*.json")):
         i = os.path.basename(meta_path)[4:-5]
         patch = f"{out}/patch{i}.diff"
